@@ -28,6 +28,7 @@ RULE = (
     ' Round 7: `reuse` senders re-send the object an earlier wake delivered.'
     ' Round 8: `keys=types` (cover up/down/stop), `listener=persistent`.'
     ' Round 9: `debug_log`; sent Message objects are not kept alive by the harness.'
+    ' Round 11: a sender may send an internal command (heartbeat request) instead of a set; `listen_line` (the line that arrives during the race is the node asking for a parked key, not its wake).'
     " Round 10: `pre_lines` (pre/post-sleep notifications, other nodes' heartbeats); rule buffered-send-written-directly; a bystander gateway whose node of the same id wakes."
 )
 ASSUMPTIONS = [
@@ -98,6 +99,13 @@ def enumerate_cases(tier: str):
                 yield {"version": version, "parked": 2, "other_parked": 0, "senders": [[0, True], [1, True]], "pre_lines": [line]}
             for senders in ([[0, True]], [[1, True]], [[3, True]]):
                 yield {"version": version, "parked": 2, "other_parked": 0, "senders": senders, "bystander": True}
+            # one of the tasks sends an internal command to the sleeping node (a heartbeat request); or what arrives during the race is
+            # the node's own request for a parked key, not its wake
+            for senders in ([[0, True, "hb"]], [[0, True, "hb"], [0, True]], [[1, False, "hb"], [0, True]], [["other", True, "hb"], [1, True]]):
+                yield {"version": version, "parked": 2, "other_parked": 0, "senders": senders}
+            for senders in ([[0, True]], [[1, True]], [[0, True], [1, True]], [[3, True]]):
+                for which in ("req0", "req1"):
+                    yield {"version": version, "parked": 2, "other_parked": 0, "senders": senders, "listen_line": which}
             for senders in ([[0, True]], [[1, True]], [[1, True], [2, True]], [[2, True], [1, True]], [[0, True], [1, True], [2, True]]):
                 yield {"version": version, "parked": 2, "other_parked": 1, "senders": senders, "keys": "types"}
                 yield {"version": version, "parked": 2, "other_parked": 0, "senders": senders, "listener": "persistent"}
@@ -123,7 +131,7 @@ def enumerate_cases(tier: str):
 
 
 def strategy(tier: str):
-    sender = st.tuples(st.sampled_from((0, 1, 2, 3, "other")), st.booleans(), st.sampled_from(("new", "new", "dup", "req", "ack", "reuse"))).map(list)
+    sender = st.tuples(st.sampled_from((0, 1, 2, 3, "other")), st.booleans(), st.sampled_from(("new", "new", "new", "dup", "req", "ack", "reuse", "hb"))).map(list)
     return st.fixed_dictionaries(
         {
             "version": st.sampled_from(("2.0", "2.1", "2.2")),
@@ -138,6 +146,7 @@ def strategy(tier: str):
             "bystander": st.sampled_from((False, False, True)),
             "listener": st.sampled_from(("fresh", "persistent")),
             "prior": st.booleans(),
+            "listen_line": st.sampled_from(("wake", "wake", "wake", "req0", "req1")),
         }
     )
 
@@ -219,6 +228,9 @@ async def _run_schedule(case: dict, schedule: list[int]) -> tuple[Outcome | None
     prior_msgs: dict = {}
 
     async def do_send(key, value, buffer, ack: int = 0, message=None, keep: bool = False) -> tuple[str, object]:
+        if isinstance(value, tuple):
+            # an internal command of the application (e.g. a heartbeat request to the node): written or held by the library, not judged here
+            return await env.send(gateway, env.mk_message(list(value[1])), buffer)
         if value is None:
             req_lines.append(f"{key[0]};{key[1]};2;0;{key[2]};\n")
             return await env.send(gateway, env.mk_message([key[0], key[1], 2, 0, key[2], ""]), buffer)
@@ -282,6 +294,8 @@ async def _run_schedule(case: dict, schedule: list[int]) -> tuple[Outcome | None
             value = f"p{kref}"  # the same value as the parked (possibly in-flight) command, in a new Message object
         if len(sender) > 2 and sender[2] == "req":
             value = None  # this task asks the node for the value instead of setting it (command 2, same key)
+        if len(sender) > 2 and sender[2] == "hb":
+            value = ("raw", [key[0], 255, 3, 0, 18, ""])  # this task asks the node for a heartbeat (internal command 18)
         # "ack": the command asks the node to echo it (ack flag set); that changes nothing about buffering
         # "reuse": the application keeps constant command objects (ON / OFF) and sends the very object an earlier wake delivered
         reused = prior_msgs.get(idx) if len(sender) > 2 and sender[2] == "reuse" else None
@@ -318,7 +332,12 @@ async def _run_schedule(case: dict, schedule: list[int]) -> tuple[Outcome | None
         trace.append(f"{kind}{'' if arg is None else arg}")
         if kind == "listen":
             listen_tick[0] = transport.tick()
-            listener = asyncio.ensure_future(receive(f"1;255;3;0;{wake_type};5\n"))
+            racing_line = f"1;255;3;0;{wake_type};5\n"
+            if str(case.get("listen_line", "")).startswith("req") and not case.get("represented") and not case.get("reported"):
+                # what arrives while the senders run is not the wake but the node asking for the value of one of the parked keys
+                rkey = NODE1_KEYS[int(case["listen_line"][3:]) % len(NODE1_KEYS)]
+                racing_line = f"{rkey[0]};{rkey[1]};2;0;{rkey[2]};\n"
+            listener = asyncio.ensure_future(receive(racing_line))
         elif kind == "start":
             key, value, buf, ack, reused = specs[arg]
             flush_blocked = any(not fut.done() and _key_of(line)[0] == 1 for line, fut in transport.blocked)
